@@ -3,12 +3,30 @@ package main
 import (
 	"fmt"
 	"path/filepath"
+	"regexp"
 	"strings"
 
 	"verifharness/internal/goast"
 )
 
 func init() { register("secmem", extractSecMem) }
+
+var errCond = regexp.MustCompile(`^if\(([A-Za-z_][A-Za-z0-9_]*)(!=|==)nil\)\{$`)
+
+// normErr makes the skeletons insensitive to the NAMES of local error variables: `if(<x>!=nil){`,
+// `if(<x>==nil){` and `<x>.Error` with an identifier containing "err" are printed with `err`.
+func normErr(toks []string) []string {
+	out := make([]string, len(toks))
+	for i, t := range toks {
+		out[i] = t
+		if m := errCond.FindStringSubmatch(t); m != nil && strings.Contains(strings.ToLower(m[1]), "err") {
+			out[i] = "if(err" + m[2] + "nil){"
+		} else if strings.HasSuffix(t, ".Error") && !strings.Contains(t[:len(t)-6], ".") && strings.Contains(strings.ToLower(t), "err") {
+			out[i] = "err.Error"
+		}
+	}
+	return out
+}
 
 // Facts properties C11 / C12 rest on: the normalised skeletons (callee names, conditions, lock
 // scopes, defers, field stores) of the functions whose shape Model/SecMem.lean mirrors —
@@ -66,7 +84,7 @@ func extractSecMem(repo string) (map[string]string, error) {
 		if err != nil {
 			return nil, err
 		}
-		fmt.Fprintf(&b, "/-- `%s` (%s) -/\ndef %s : List String := %s\n", it.fn, it.file, it.lean, goast.LeanStringList(goast.Skeleton(fd)))
+		fmt.Fprintf(&b, "/-- `%s` (%s) -/\ndef %s : List String := %s\n", it.fn, it.file, it.lean, goast.LeanStringList(normErr(goast.Skeleton(fd))))
 	}
 	// the closed-secret error text both packages return (the harness recognises it by this text)
 	for _, it := range [][2]string{{"pmClosedErr", "protectedmemory/secret.go"}, {"mgClosedErr", "memguard/secret.go"}} {
